@@ -452,7 +452,8 @@ class Writer:
         self.tsyms: List[str] = []          # free timestamp symbols (parameters / variables) in SET order of first use
         self.rsym: Optional[str] = None     # symbol supplying the reason, if any
         self._collect()
-        # call-chain variants: (label, {symbol: 'nonnull'|'null'|'any'}, fresh_attempt, reason values or None)
+        # call-chain variants: (label, {symbol: 'nonnull'|'null'|'any'|'unknown'}, fresh_attempt, reason values or None)
+        # 'unknown': the Python expression bound to the symbol is not followed (treated as unconstrained; see transitions_tagged)
         # fresh_attempt: True = the attempt id of this chain provably names an attempt that has not been billed (see id_provenance),
         #                False = not restricted, None = the provenance of the id is not decided (rows are flagged by transitions_ex)
         self.variants: List[Tuple[str, Dict[str, str], Optional[bool], Optional[Set[Optional[str]]]]] = []
@@ -712,12 +713,13 @@ def find_writers(ctx: Ctx, prog: sf.SqlProgram, rule: Optional[str] = 'R3') -> L
 # ----------------------------------------------------------------------------------------------------
 # Python call chains: NULL classes of timestamp arguments, reason literals
 # ----------------------------------------------------------------------------------------------------
-# Worker-supplied JSON fields: NULL-ness cannot be seen in the driver; frozen table, one reason per line.
+# Worker-supplied JSON fields: NULL-ness cannot be seen in the driver; frozen table, one reason per line.  Keyed by the handler function and
+# the key path below the decoded request body (locals holding sub-objects are followed, so their names do not matter).
 WORKER_FIELDS = {
-    ("job_complete_1", "job_status['start_time']"): ('any', 'a job that failed before starting reports start_time None'),
-    ("job_complete_1", "job_status['end_time']"): ('nonnull', 'worker.py post_job_complete_1 asserts job.end_time before posting'),
-    ("job_started_1", "job_status['start_time']"): ('nonnull', 'the worker sets start_time = time_msecs() before it posts job_started (status schema: start_time: int)'),
-    ("billing_update_1", "body['timestamp']"): ('nonnull', 'the worker posts billing updates with timestamp = time_msecs()'),
+    ("job_complete_1", ('status', 'start_time')): ('any', 'a job that failed before starting reports start_time None'),
+    ("job_complete_1", ('status', 'end_time')): ('nonnull', 'worker.py post_job_complete_1 asserts job.end_time before posting'),
+    ("job_started_1", ('status', 'start_time')): ('nonnull', 'the worker sets start_time = time_msecs() before it posts job_started (status schema: start_time: int)'),
+    ("billing_update_1", ('timestamp',)): ('nonnull', 'the worker posts billing updates with timestamp = time_msecs()'),
 }
 
 
@@ -789,45 +791,222 @@ def callers_of(fn: pf.FuncDef) -> List[Tuple[pf.Module, Optional[pf.FuncDef], as
     return out
 
 
-def classify_time(ctx: Ctx, m: pf.Module, fn: Optional[pf.FuncDef], x: ast.expr, depth: int = 3) -> List[Tuple[str, str]]:
-    """Possible NULL-classes of a Python expression bound to a timestamp parameter: list of (class, origin)."""
-    if isinstance(x, ast.Constant) and x.value is None:
-        return [('null', f'{m.rel}:{x.lineno} None')]
-    if isinstance(x, ast.Call) and pf.dotted(x.func) == 'time_msecs':
+Classes = List[Tuple[str, str]]        # (class, origin); class: 'nonnull' | 'null' | 'any' (both occur) | 'unknown' (the expression is not followed)
+_NEG_KIND = {'truthy': 'falsy', 'falsy': 'truthy', 'isnone': 'notnone', 'notnone': 'isnone'}
+_NONNULL_BUILTINS = {'int', 'max', 'min', 'round', 'abs', 'float', 'len'}
+
+
+def _null_test(test: ast.expr) -> Optional[Tuple[str, str]]:
+    """(local name, kind) for a test that speaks about the None-ness of one local; kind: 'truthy' | 'falsy' | 'isnone' | 'notnone'."""
+    if isinstance(test, ast.Name):
+        return (test.id, 'truthy')
+    if isinstance(test, ast.UnaryOp) and isinstance(test.op, ast.Not):
+        inner = _null_test(test.operand)
+        return (inner[0], _NEG_KIND[inner[1]]) if inner else None
+    if isinstance(test, ast.Compare) and len(test.ops) == 1 and isinstance(test.left, ast.Name) and isinstance(test.comparators[0], ast.Constant) \
+            and test.comparators[0].value is None:
+        if isinstance(test.ops[0], (ast.Is, ast.Eq)):
+            return (test.left.id, 'isnone')
+        if isinstance(test.ops[0], (ast.IsNot, ast.NotEq)):
+            return (test.left.id, 'notnone')
+    return None
+
+
+def _established(kind: str, polarity: bool) -> Optional[str]:
+    """What the outcome of a None-ness test establishes about the tested local: 'nonnull' | 'null' | None (a falsy value may be None or 0)."""
+    if not polarity:
+        kind = _NEG_KIND[kind]
+    return {'truthy': 'nonnull', 'notnone': 'nonnull', 'isnone': 'null', 'falsy': None}[kind]
+
+
+def _restrict(classes: Classes, to: Optional[str]) -> Classes:
+    if to is None:
+        return classes
+    return [(to, f'{o} (tested)') for c, o in classes if c == to or c in ('any', 'unknown')]
+
+
+def _stmt_of(m: pf.Module, node: ast.AST) -> Optional[ast.stmt]:
+    par = m.parents()
+    cur: Optional[ast.AST] = node
+    while cur is not None and not isinstance(cur, ast.stmt):
+        cur = par.get(cur)
+    return cur      # type: ignore[return-value]
+
+
+def _inside(m: pf.Module, node: ast.AST, anc: ast.AST) -> bool:
+    par = m.parents()
+    cur: Optional[ast.AST] = node
+    while cur is not None:
+        if cur is anc:
+            return True
+        cur = par.get(cur)
+    return False
+
+
+def _use_site_facts(m: pf.Module, fn: pf.FuncDef, x: ast.Name) -> List[str]:
+    """'nonnull' / 'null' facts the enclosing if-statements / conditional expressions establish about local x.id where x is read.
+    A test counts only if the local is not re-assigned inside the tested construct (other than by the statement that contains the read)."""
+    par = m.parents()
+    if x not in par:
+        return []
+    own = _stmt_of(m, x)
+    assigns = [n for n in pf.walk_shallow(fn) if isinstance(n, (ast.Assign, ast.AnnAssign, ast.AugAssign, ast.NamedExpr, ast.For, ast.AsyncFor, ast.With, ast.AsyncWith))
+               and any(isinstance(t, ast.Name) and t.id == x.id and isinstance(t.ctx, ast.Store) for t in ast.walk(n))]
+    out: List[str] = []
+    cur: ast.AST = x
+    p = par.get(cur)
+    while p is not None and cur is not fn:
+        pol: Optional[bool] = None
+        if isinstance(p, ast.If) and cur is not p.test:
+            pol = True if any(cur is s_ for s_ in p.body) else (False if any(cur is s_ for s_ in p.orelse) else None)
+        elif isinstance(p, ast.IfExp) and cur is not p.test:
+            pol = True if cur is p.body else (False if cur is p.orelse else None)
+        if pol is not None:
+            nt = _null_test(p.test)
+            if nt is not None and nt[0] == x.id and not any(a is not own and _inside(m, a, p) for a in assigns):
+                est = _established(nt[1], pol)
+                if est is not None:
+                    out.append(est)
+        cur = p
+        p = par.get(cur)
+    return out
+
+
+def _json_path(fn: Optional[pf.FuncDef], e: ast.AST) -> Optional[Tuple[str, ...]]:
+    """Key path of `e` below the decoded body of the request (`(await json_request(request))['status']['start_time']`, through single-definition locals)."""
+    keys: List[str] = []
+    cur = e
+    for _ in range(12):
+        if isinstance(cur, ast.Await):
+            cur = cur.value
+        elif isinstance(cur, ast.Subscript) and pf.const_str(cur.slice) is not None:
+            keys.append(pf.const_str(cur.slice))        # type: ignore[arg-type]
+            cur = cur.value
+        elif isinstance(cur, ast.Name) and fn is not None:
+            d = pf.single_def(fn, cur.id)
+            if not isinstance(d, ast.expr):
+                return None
+            cur = d
+        else:
+            break
+    if isinstance(cur, ast.Call) and pf.call_name(cur) in JSON_SOURCES and keys:
+        return tuple(reversed(keys))
+    return None
+
+
+_resolving: Dict[Tuple[int, str], Classes] = {}
+
+
+def _param_classes(ctx: Ctx, m: pf.Module, fn: pf.FuncDef, name: str, depth: int) -> Classes:
+    if depth <= 0:
+        return [('unknown', f'{m.rel}::{fn.name}({name}) call depth exhausted')]
+    out: Classes = []
+    for m2, f2, call in callers_of(fn):
+        how, a = bound_arg(call, fn, name)
+        if how == 'default':
+            if a is not None:
+                out += classify_time(ctx, m, None, a, 0)
+            else:
+                out.append(('unknown', f'{m2.rel}:{call.lineno} argument not found'))
+            continue
+        if how != 'arg' or a is None:
+            out.append(('unknown', f'{m2.rel}:{call.lineno} argument not found'))
+            continue
+        out += classify_time(ctx, m2, f2, a, depth - 1)
+    return out or [('unknown', f'no call sites of {fn.name}')]
+
+
+def _classify_name(ctx: Ctx, m: pf.Module, fn: pf.FuncDef, x: ast.Name, depth: int) -> Classes:
+    key = (id(fn), x.id)
+    if key in _resolving:
+        return list(_resolving[key])        # a read inside the expression that re-defines the local: the value it had before
+    defs = pf.assignments(fn).get(x.id, [])
+    params = [a for a in defs if isinstance(a, ast.arg)]
+    others = [d for d in defs if not isinstance(d, ast.arg)]
+    unknown: Classes = [('unknown', f'{m.rel}:{getattr(x, "lineno", 0)} `{x.id}` has definitions the NULL-class analysis does not follow')]
+    if not defs:
+        return [('unknown', f'{m.rel}:{getattr(x, "lineno", 0)} `{x.id}` is not a local of {fn.name}')]
+    if not all(isinstance(d, ast.expr) for d in others):
+        return unknown
+    if params and not others:
+        return _param_classes(ctx, m, fn, x.id, depth)
+
+    def of_def(d: ast.expr, before: Classes) -> Classes:
+        _resolving[key] = before
+        try:
+            return classify_time(ctx, m, fn, d, depth)
+        finally:
+            del _resolving[key]
+    if not params:
+        out: Classes = []
+        for d in others:
+            out += of_def(d, [('unknown', f'{m.rel}:{getattr(d, "lineno", 0)} `{x.id}` is defined in terms of itself')])
+        return out
+    pcls = _param_classes(ctx, m, fn, x.id, depth)
+    par = m.parents()
+    sts = [_stmt_of(m, d) for d in others]
+    if any(s_ is None for s_ in sts):
+        return unknown
+    if len(others) == 1:
+        d, st = others[0], sts[0]
+        cd = of_def(d, pcls)
+        if _straight_dominates(m, fn, st, x):
+            return cd                       # unconditional re-definition in front of the read
+        p = par.get(st)
+        if isinstance(p, ast.If) and _straight_dominates(m, fn, p, x) and (any(st is s_ for s_ in p.body) or any(st is s_ for s_ in p.orelse)):
+            in_body = any(st is s_ for s_ in p.body)
+            nt = _null_test(p.test)
+            keep = _restrict(pcls, _established(nt[1], not in_body)) if nt is not None and nt[0] == x.id else pcls
+            return cd + keep                # the parameter's own value survives on the other branch
+        return unknown
+    if len(others) == 2:
+        p = par.get(sts[0])
+        if isinstance(p, ast.If) and par.get(sts[1]) is p and _straight_dominates(m, fn, p, x):
+            a_body = [any(s_ is t for t in p.body) for s_ in sts]
+            a_else = [any(s_ is t for t in p.orelse) for s_ in sts]
+            if (a_body[0] and a_else[1]) or (a_body[1] and a_else[0]):
+                return of_def(others[0], pcls) + of_def(others[1], pcls)
+    return unknown
+
+
+def classify_time(ctx: Ctx, m: pf.Module, fn: Optional[pf.FuncDef], x: ast.expr, depth: int = 3) -> Classes:
+    """Possible NULL-classes of a Python expression bound to a timestamp parameter: list of (class, origin).  'unknown' = the expression
+    is not followed: a verdict that depends on its NULL-ness must be declined by the caller (it is neither evidence for NULL nor against)."""
+    if isinstance(x, ast.Await):
+        return classify_time(ctx, m, fn, x.value, depth)
+    if isinstance(x, ast.Constant):
+        if x.value is None:
+            return [('null', f'{m.rel}:{x.lineno} None')]
+        if isinstance(x.value, (int, float)) and not isinstance(x.value, bool):
+            return [('nonnull', f'{m.rel}:{x.lineno} {x.value!r}')]
+    if isinstance(x, ast.Call) and pf.call_name(x) == 'time_msecs':
         return [('nonnull', f'{m.rel}:{x.lineno} time_msecs()')]
+    if isinstance(x, ast.Call) and isinstance(x.func, ast.Name) and x.func.id in _NONNULL_BUILTINS:
+        return [('nonnull', f'{m.rel}:{x.lineno} {x.func.id}(..) returns a number')]
+    if isinstance(x, ast.BinOp) and isinstance(x.op, (ast.Add, ast.Sub, ast.Mult, ast.FloorDiv, ast.Div, ast.Mod)):
+        return [('nonnull', f'{m.rel}:{x.lineno} arithmetic yields a number (or raises)')]
+    if isinstance(x, ast.IfExp):
+        return classify_time(ctx, m, fn, x.body, depth) + classify_time(ctx, m, fn, x.orelse, depth)
+    if isinstance(x, ast.BoolOp) and isinstance(x.op, ast.Or):
+        # `a or b`: a when a is truthy (then it is not None), otherwise b
+        out: Classes = []
+        for v in x.values[:-1]:
+            if any(c != 'null' for c, _ in classify_time(ctx, m, fn, v, depth)):
+                out.append(('nonnull', f'{m.rel}:{x.lineno} truthy operand of `or`'))
+        return out + classify_time(ctx, m, fn, x.values[-1], depth)
     if isinstance(x, ast.Name) and fn is not None:
-        defs = pf.assignments(fn).get(x.id, [])
-        params = [a for a in defs if isinstance(a, ast.arg)]
-        others = [d for d in defs if not isinstance(d, ast.arg)]
-        # idiom:  if not t: t = time_msecs()
-        if params and len(others) == 1 and isinstance(others[0], ast.Call) and pf.dotted(others[0].func) == 'time_msecs':
-            for n in pf.walk_shallow(fn):
-                if isinstance(n, ast.If) and pf.nsrc(n.test) in (f'not {x.id}', f'{x.id} is None') and any(isinstance(b, ast.Assign) and b.value is others[0] for b in n.body):
-                    return [('nonnull', f'{m.rel}::{fn.name} `if not {x.id}: {x.id} = time_msecs()`')]
-        if params and not others and depth > 0:
-            out: List[Tuple[str, str]] = []
-            for m2, f2, call in callers_of(fn):
-                how, a = bound_arg(call, fn, x.id)
-                if how == 'default':
-                    if a is not None:
-                        out += classify_time(ctx, m, None, a, 0)
-                    else:
-                        out.append(('any', f'{m2.rel}:{call.lineno} argument not found'))
-                    continue
-                if how != 'arg' or a is None:
-                    out.append(('any', f'{m2.rel}:{call.lineno} argument not found'))
-                    continue
-                out += classify_time(ctx, m2, f2, a, depth - 1)
-            return out or [('any', f'no call sites of {fn.name}')]
-        if len(others) == 1 and not params and isinstance(others[0], ast.expr):
-            return classify_time(ctx, m, fn, others[0], depth)
+        base = _classify_name(ctx, m, fn, x, depth)
+        for est in _use_site_facts(m, fn, x):
+            base = _restrict(base, est)
+        return base
     if isinstance(x, ast.Subscript) and fn is not None:
-        key = (fn.name, pf.nsrc(x))
-        if key in WORKER_FIELDS:
-            cls, why = WORKER_FIELDS[key]
-            ctx.assume(f'worker-supplied {key[1]} in {key[0]} is {cls}: {why}')
-            return [(cls, f'{m.rel}::{fn.name} {key[1]}')]
-    return [('any', f'{m.rel}:{getattr(x, "lineno", 0)} {pf.nsrc(x)[:40]}')]
+        path = _json_path(fn, x)
+        if path is not None and (fn.name, path) in WORKER_FIELDS:
+            cls, why = WORKER_FIELDS[(fn.name, path)]
+            shown = 'body' + ''.join(f'[{k!r}]' for k in path)
+            ctx.assume(f'worker-supplied {shown} in {fn.name} is {cls}: {why}')
+            return [(cls, f'{m.rel}::{fn.name} {shown}')]
+    return [('unknown', f'{m.rel}:{getattr(x, "lineno", 0)} `{pf.nsrc(x)[:40]}` is not followed')]
 
 
 class Frame:
@@ -915,8 +1094,30 @@ def proc_calls(ctx: Ctx, prog: sf.SqlProgram, rels: Sequence[str] = ('batch/batc
     return calls
 
 
+def _leading_elts(fn: Optional[pf.FuncDef], arg: Optional[ast.AST]) -> List[ast.expr]:
+    """The elements an argument sequence is known to start with: `[a, b, *rest]`, `(a, b) + rest`, `[a] + rest` -> [a, b] / [a]."""
+    if isinstance(arg, ast.Name) and fn is not None:
+        arg = pf.resolve_expr(fn, arg)
+    if isinstance(arg, (ast.List, ast.Tuple)):
+        out: List[ast.expr] = []
+        for x in arg.elts:
+            if isinstance(x, ast.Starred):
+                break
+            out.append(x)
+        return out
+    if isinstance(arg, ast.BinOp) and isinstance(arg.op, ast.Add):
+        left = _leading_elts(fn, arg.left)
+        l0 = pf.resolve_expr(fn, arg.left) if fn is not None and isinstance(arg.left, ast.Name) else arg.left
+        if isinstance(l0, (ast.List, ast.Tuple)) and len(left) == len(l0.elts):
+            return left + _leading_elts(fn, arg.right)
+        return left
+    return []
+
+
 def _one_class(cl: List[Tuple[str, str]]) -> str:
     kinds = {c for c, _ in cl}
+    if 'unknown' in kinds or not kinds:
+        return 'unknown'
     return kinds.pop() if len(kinds) == 1 else 'any'
 
 
@@ -932,17 +1133,15 @@ def refine_from_callers(ctx: Ctx, prog: sf.SqlProgram, ws: List[Writer]) -> None
             params = sr.params_in_order(w.stmt)     # type: ignore[attr-defined]
             arg = e.call.args[1] if len(e.call.args) > 1 else None
             arg = pf.resolve_expr(e.fn, arg) if arg is not None and e.fn is not None else arg
-            first = None
-            if isinstance(arg, (ast.List, ast.Tuple)) and arg.elts and not isinstance(arg.elts[0], ast.Starred):
-                first = arg.elts[0]
+            leading = _leading_elts(e.fn, arg)
             classes = {}
             for s_ in tsyms:
                 x = None
                 if s_.startswith('%s@'):
                     pos = int(s_.split('@')[1])
                     idx = [p.pos for p in params].index(pos)
-                    x = first if idx == 0 and first is not None else None
-                cl = classify_time(ctx, m, e.fn, x) if x is not None else [('any', 'unbound')]
+                    x = leading[idx] if idx < len(leading) else None
+                cl = classify_time(ctx, m, e.fn, x) if x is not None else [('unknown', 'unbound')]
                 classes[s_] = _one_class(cl)
             w.add_variant(e.qual, classes, False, None)
             continue
@@ -951,7 +1150,7 @@ def refine_from_callers(ctx: Ctx, prog: sf.SqlProgram, ws: List[Writer]) -> None
             w.add_variant('no-op', {}, False, None)
             continue
         if name not in calls:
-            w.add_variant('unresolved callers', {s_: 'any' for s_ in tsyms}, False, None)
+            w.add_variant('unresolved callers', {s_: 'unknown' for s_ in tsyms}, False, None)
             continue
         pc = calls[name]
         m, e, bind = pc.m, pc.e, pc.bind
@@ -971,9 +1170,9 @@ def refine_from_callers(ctx: Ctx, prog: sf.SqlProgram, ws: List[Writer]) -> None
                         if how == 'default' and a is not None:
                             cl = classify_time(ctx, m, None, a, 0)
                         else:
-                            cl = classify_time(ctx, m2, f2, a) if how == 'arg' and a is not None else [('any', 'missing')]
+                            cl = classify_time(ctx, m2, f2, a) if how == 'arg' and a is not None else [('unknown', 'missing')]
                     else:
-                        cl = classify_time(ctx, m, wrapper, bind[s_]) if s_ in bind else [('any', 'unbound')]
+                        cl = classify_time(ctx, m, wrapper, bind[s_]) if s_ in bind else [('unknown', 'unbound')]
                     classes[s_] = _one_class(cl)
                 rvals: Optional[Set[Optional[str]]] = None
                 if rs in bind:
@@ -1000,7 +1199,7 @@ def refine_from_callers(ctx: Ctx, prog: sf.SqlProgram, ws: List[Writer]) -> None
         else:
             classes = {}
             for s_ in tsyms:
-                cl = classify_time(ctx, m, wrapper, bind[s_]) if s_ in bind else [('any', 'unbound')]
+                cl = classify_time(ctx, m, wrapper, bind[s_]) if s_ in bind else [('unknown', 'unbound')]
                 classes[s_] = _one_class(cl)
             rvals = None
             if rs in bind:
@@ -1425,7 +1624,31 @@ def is_fresh_row(old: Dict[str, Any]) -> bool:
     return old['end_time'] is None and old.get('reason') is None and (old['start_time'] is None or old['rollup_time'] is None or old['rollup_time'] <= old['start_time'])
 
 
+def unknown_symbols(w: Writer, vi: int) -> List[str]:
+    """Timestamp symbols of variant vi whose NULL class the call-chain analysis could not establish."""
+    return [s_ for s_ in w.tsyms if w.variants[vi][1].get(s_) == 'unknown']
+
+
+def transitions_tagged(body: List[N], w: Writer, special_reasons: Sequence[str]) -> Iterator[Tuple[int, str, Dict[str, Any], Dict[str, Any], Dict[str, Any], Optional[Tuple]]]:
+    """Like `transitions`, plus a tag: None when the transition belongs to a call chain whose parameter classes are all established;
+    otherwise the NULL pattern ((symbol, is NULL), ...) this transition assumes for the symbols whose class is 'unknown'.  Such a
+    transition is an over-approximation: it is evidence for a violation only if the same violation shows for EVERY pattern of the chain."""
+    for vi, label, old, new, out, fresh, pv in _transitions_pv(body, w, special_reasons):
+        if w.variants[vi][2] is True and not fresh:
+            continue
+        unk = unknown_symbols(w, vi)
+        tag: Tuple = tuple((s_, pv[s_] is None) for s_ in unk)
+        if w.rsym is not None and w.variants[vi][3] is None and any(c == 'reason' for c, _ in w.assigns):
+            tag = tag + (('<reason>', pv['<reason>']),)        # the reason values of this chain are not resolved: every value is an assumption
+        yield vi, label, old, new, out, (tag or None)
+
+
 def transitions_ex(body: List[N], w: Writer, special_reasons: Sequence[str]) -> Iterator[Tuple[int, str, Dict[str, Any], Dict[str, Any], Dict[str, Any], bool]]:
+    for vi, label, old, new, out, fresh, _pv in _transitions_pv(body, w, special_reasons):
+        yield vi, label, old, new, out, fresh
+
+
+def _transitions_pv(body: List[N], w: Writer, special_reasons: Sequence[str]) -> Iterator[Tuple[int, str, Dict[str, Any], Dict[str, Any], Dict[str, Any], bool, Dict[str, Any]]]:
     """(variant index, call chain, OLD row, row written by the statement, row stored after the trigger, fresh) for every ordering class and
     every variant, starting from every OLD row that satisfies Inv - WITHOUT applying the fresh-attempt restriction: `fresh` tells whether
     the OLD row is one of an attempt that has not ended and has not been billed.  `special_reasons`: reason literals the trigger
@@ -1456,7 +1679,7 @@ def transitions_ex(body: List[N], w: Writer, special_reasons: Sequence[str]) -> 
                         continue        # the WHERE clause rejects this row: no update, no trigger
                     new = w.written_row(old, pv, nr)
                     out = exec_trigger(body, old, new)
-                    yield vi, label, dict(old), new, out, is_fresh_row(old)
+                    yield vi, label, dict(old), new, out, is_fresh_row(old), dict(pv, **{'<reason>': nr})
 
 
 def transitions(body: List[N], w: Writer, special_reasons: Sequence[str]) -> Iterator[Tuple[str, Dict[str, Any], Dict[str, Any], Dict[str, Any]]]:
@@ -1648,3 +1871,62 @@ class CondEval(ValueEval):
                 return ('unk',)      # varies inside the class, but the caller's case split may correlate with it
             return ('var', outs)
         raise UnknownLeaf(f'condition `{text(c)}`')
+
+
+# ----------------------------------------------------------------------------------------------------
+# the billed-duration expression of the billing triggers, compared as a value (not as text)
+# ----------------------------------------------------------------------------------------------------
+def billed_lin(s_: Optional[int], r_: Optional[int]) -> Lin:
+    """f = GREATEST(COALESCE(rollup - start, 0), 0) = max(rollup - start, 0), 0 when either is NULL, as a linear form over rank atoms."""
+    if s_ is None or r_ is None or r_ <= s_:
+        return _lin({}, 0)
+    return _lin_add(_lin({r_: 1}, 0), _lin({s_: 1}, 0), -1)
+
+
+def _lin_text(lin: Lin, row: Dict[str, Optional[int]]) -> str:
+    name = {}
+    for k, v in row.items():
+        if v is not None:
+            name.setdefault(v, k)
+    parts = [f'{"+" if c > 0 else "-"} {abs(c) if abs(c) != 1 else ""}{name.get(r, "?")}' for r, c in lin[0]]
+    if lin[1] or not parts:
+        parts.append(f'{"+" if lin[1] >= 0 else "-"} {abs(lin[1])}')
+    t = ' '.join(parts)
+    return t[2:] if t.startswith('+ ') else t
+
+
+def compare_value_expr(expr: N, sym_of: Callable[[N], Optional[str]], syms: Sequence[str], want: Callable[[Dict[str, Optional[int]]], Lin]) -> Tuple:
+    """Does `expr` (over the timestamp symbols `syms`; sym_of maps a leaf node to its symbol, None = not a timestamp the domain models)
+    denote the linear form want(class) in every ordering class (NULLs included) of the symbols?  Decided symbolically per class: NULL
+    propagation, COALESCE / IF / CASE selection, GREATEST / LEAST resolved where the ordering fixes the winner, linear normal form over the
+    gaps of the class.  ('ok', classes) | ('bad', class, value found, value required) | ('undecided', why).  A class in which the
+    expression cannot be reduced to one linear form is skipped (undecided unless another class shows a definite difference)."""
+    undecided: Optional[str] = None
+    n = 0
+    for ordv in weak_orderings(len(syms)):
+        row = dict(zip(syms, ordv))
+        basis = GapBasis(list(ordv))
+
+        def leaf(nd: N) -> Any:
+            s_ = sym_of(nd)
+            if s_ is None:
+                raise UnknownLeaf(f'`{text(nd)}` is not one of the timestamps of the attempt row')
+            return row[s_]
+        ce = CondEval(leaf, basis)
+        try:
+            v = ce.forms(expr)
+        except (UnknownLeaf, AnalysisError) as e:
+            undecided = undecided or str(e)
+            continue
+        w_ = want(row)
+        if v is NULLV:
+            return ('bad', row, 'NULL', _lin_text(w_, row))
+        if v.kind != 'one':
+            undecided = undecided or f'`{text(expr)}`: a GREATEST / LEAST is not resolved by the ordering of the timestamps alone'
+            continue
+        n += 1
+        if basis.coeffs(v.forms[0]) != basis.coeffs(w_):
+            return ('bad', row, _lin_text(v.forms[0], row), _lin_text(w_, row))
+    if undecided is not None:
+        return ('undecided', undecided)
+    return ('ok', n)
